@@ -50,7 +50,7 @@ fn main() {
         let dir = std::path::Path::new(env!("CARGO_MANIFEST_DIR")).parent().unwrap().join("regress").join(&id);
         let mut files: Vec<std::path::PathBuf> = std::fs::read_dir(&dir).map(|d| d.filter_map(|e| e.ok()).map(|e| e.path()).filter(|p| p.extension().map_or(false, |x| x == "json")).collect()).unwrap_or_default();
         files.sort();
-        let exe = std::env::current_exe().expect("own path");
+        let exe = fvh::own_exe();
         let mut passed = 0;
         let mut inconclusive = 0;
         for chunk in files.chunks(8) {
